@@ -1527,6 +1527,81 @@ def check_e2e(ctx, p, i, kl, dh, child_dh, proto):
     return fails
 
 
+def check_negotiated_sizes(ctx, seed):
+    """Two honest peers whose CHILD_SA offers differ, so that the responder's choice is NOT the initiator's first
+    transform (another AES key length, another integrity algorithm): through the real main_loop with the real HMACs,
+    every CHILD_SA key ring either side derives must be KEYMAT = prf+(SK_d, [g^ir |] Ni | Nr) cut with the key sizes of
+    the NEGOTIATED transforms (the ones the responder answered with), RFC 7296 2.17 - recomputed here with hmac."""
+    from sim.scenarios import Pair, scripted
+    from sim.world import LoopEscape
+    from unittest import mock
+    import ikesa
+    fails = []
+    confs = [('responder_prefers_aes128', {'over_b': {'protect': {'encr': ['aes128']}}}),
+             ('responder_lists_aes128_first', {'over_b': {'protect': {'encr': ['aes128', 'aes256']}}}),
+             ('responder_prefers_sha256', {'child_integ': ('sha512', 'sha256'), 'over_b': {'protect': {'integ': ['sha256']}}}),
+             ('responder_prefers_sha512_pfs', {'child_integ': ('sha256', 'sha512'), 'child_dh': ('14',),
+                                               'over_b': {'protect': {'integ': ['sha512', 'sha256']}}})]
+    for name, conf in confs:
+        rep = {'kind': 'negotiated-sizes', 'name': name, 'seed': seed}
+        calls = []
+        orig = ikesa.IkeSa.generate_child_sa_key_material
+
+        def gen(self_, child_proposal, keyseed, sk_d, _calls=calls, _orig=orig):
+            r = _orig(self_, child_proposal, keyseed, sk_d)
+            _calls.append((self_.is_initiator, bytes(keyseed), bytes(sk_d), self_.my_crypto.prf.hasher().name,
+                           [bytes(r.sk_ei or b''), bytes(r.sk_ai), bytes(r.sk_er or b''), bytes(r.sk_ar)]))
+            return r
+        with Pair(seed=seed, **conf) as p, mock.patch.object(ikesa.IkeSa, 'generate_child_sa_key_material', gen):
+            try:
+                p.run(scripted('new_child') + scripted('rekey_child')[5:] + [['deliver', 0]] * 4)
+            except LoopEscape as ex:
+                fails.append(Failure('property', 'loop:escaped-exception', f'{name}: {ex.exc!r}', rep))
+                continue
+            if not p.established() or not p.A.kernel.sad:
+                fails.append(Failure('property', 'keys:handshake-failed', f'{name}: no CHILD_SA was established', rep))
+                continue
+            # the negotiated algorithms are the ones the two kernels hold; sizes per SPI from the RESPONDER's SA
+            import xfrm
+            for key, sa in p.B.kernel.sad.items():
+                other = p.A.kernel.sad.get(key)
+                algs = {c: (n_, kl_) for c, (n_, kl_, _k) in sa['algs'].items()}
+                ctx.case(['negotiated-sizes', name, key[2].hex()], nontrivial=True)
+                ctx.count('negotiated-sizes')
+                if other is None or {c: (n_, kl_) for c, (n_, kl_, _k) in other['algs'].items()} != algs \
+                        or any(other['algs'][c][2] != sa['algs'][c][2] for c in sa['algs']):
+                    fails.append(Failure('property', 'keys:negotiated-keys-differ-between-peers',
+                                         f'{name}: IPsec SA {key[2].hex()}: responder installed '
+                                         f'{[(a[0].decode(), a[1]) for a in sa["algs"].values()]}, initiator '
+                                         f'{[(a[0].decode(), a[1]) for a in (other or {"algs": {}})["algs"].values()]} or '
+                                         f'different key bytes', rep))
+                    break
+            # every derived key ring against the RFC with the sizes of the responder's ring of the same exchange
+            by_seed = {}
+            for is_init, keyseed, sk_d, h, ring in calls:
+                by_seed.setdefault((keyseed, sk_d), []).append((is_init, h, ring))
+            for (keyseed, sk_d), lst in by_seed.items():
+                sizes = None
+                for is_init, h, ring in lst:
+                    if sizes is None or not is_init:
+                        sizes = (len(ring[0]), len(ring[1]))
+                # the exchange responder's ring decides (it derived from what it put on the wire)
+                resp = [x for x in lst if len(x[2][0]) == sizes[0] and len(x[2][1]) == sizes[1]]
+                el, il = sizes
+                keymat = rfc_prfplus(lst[0][1], sk_d, keyseed, 2 * el + 2 * il)
+                want = [keymat[:el], keymat[el:el + il], keymat[el + il:2 * el + il], keymat[2 * el + il:]]
+                for is_init, h, ring in lst:
+                    if ring != want:
+                        fails.append(Failure('property', 'keys:child-keymat-not-cut-by-negotiated-sizes',
+                                             f'{name}: a CHILD_SA key ring was derived with key sizes '
+                                             f'({len(ring[0])}, {len(ring[1])}) / bytes that differ from prf+(SK_d, seed) cut '
+                                             f'with the negotiated sizes ({el}, {il})', rep))
+                        break
+        if len(fails) > 2:
+            break
+    return fails
+
+
 def oracle(ctx, deep):
     import warnings
     warnings.simplefilter('ignore')
@@ -1596,6 +1671,7 @@ def oracle(ctx, deep):
                     combos.append((p, i, kl, rng.choice(groups), rng.choice((None, 14, 20, 21)), rng.choice((2, 3))))
     for c in combos:
         fails += check_e2e(ctx, *c)
+    fails += check_negotiated_sizes(ctx, ctx.rng.getrandbits(32))
     return fails[:20]
 
 
@@ -1605,6 +1681,8 @@ def replay(ctx, obj):
     k = obj.get('kind')
     bx = (lambda h: None if h is None else bytes.fromhex(h))
     out = []
+    if k == 'negotiated-sizes':
+        return [f for f in check_negotiated_sizes(ctx, obj['seed']) if f.replay.get('name') == obj.get('name')]
     if k == 'prfplus':
         out = [check_prfplus(obj['p'], bx(obj['key']), bx(obj['seed']), obj['n'])]
     elif k == 'prfplus-limit':
